@@ -4,9 +4,11 @@
 // KalmanClockController and (being a descendant of `algorithm`) those of TimeSyncControllerWrapper.
 //   mode "select": every TLC-enumerated candidate list -> real select(); reports the selected indices
 //   mode "leap":   every TLC-enumerated leap multiset (in 3 orders) -> real combine(); reports the vote
-//   mode "replay": TLC-generated walks of ClockCtl replayed through the real TimeSyncControllerWrapper
-//   mode "record": seeded random sessions through the wrapper, logged as ndjson for Trace_ClockCtl
+//   mode "replay": TLC-generated walks of ClockCtl replayed through the real TimeSyncControllerWrapper (public API:
+//                  add_source / handle_measurement / set_usable / drop / run) with a recording NtpClock; the run()
+//                  future is polled by hand once per delivered message, "Threshold exceeded" panics are the Exit
 //   mode "filter": history shapes (FilterShapes) replayed on real source + clock controllers (C06)
+// (no "record" mode: trace validation of random sessions against ClockCtl is not implemented)
 #![allow(clippy::all, dead_code, unused_imports)]
 
 use super::*;
